@@ -433,6 +433,7 @@ def rule_sort_ownership(ctx):
 
 
 WIDE_NAMES = {'float', 'int', 'object', 'np.float64', 'np.int64', 'np.object_', 'np.float_', 'np.int_', 'np.longdouble', 'complex'}
+NARROW_NAMES = {'np.float32', 'np.float16', 'np.int32', 'np.int16', 'np.int8', 'np.single', 'np.half', 'np.intc', 'np.short'}
 WIDE_CONSTS = {'O', 'f8', 'i8', 'float64', 'int64', 'object', 'float', 'int', 'd', 'l', 'q', float, int, object}
 
 
@@ -452,6 +453,8 @@ def wide_dtype(t):
         d = T.dotted(t)
         if d in WIDE_NAMES:
             return True
+        if d in NARROW_NAMES:
+            return False
     if t[0] == 'const':
         return True if t[1] in WIDE_CONSTS else (False if t[1] in ('f', 'i', 'u', 'e', 'f4', 'i4', 'float32', 'int32', 'float16') else None)
     if _is_kind_term(t):
